@@ -35,6 +35,7 @@ var (
 	flagOnly    = flag.String("only", "", "debug: only cases of this kind")
 	flagMem     = flag.Uint64("mem", 3<<30, "address space cap of the workers in bytes")
 	flagBudget  = flag.Int("budget", 0, "debug: override the internal deadline (seconds)")
+	flagReplay  = flag.String("replay", "", "replay file written for a violation: run only its case, verbosely")
 	flagOne     = flag.String("one", "", "debug: run only the case whose description contains this text")
 )
 
@@ -406,6 +407,23 @@ func main() {
 	}
 	if err = buildCases(corpus, r.Thorough()); err != nil {
 		harnessErr("cases: %v", err)
+	}
+	if *flagReplay != "" {
+		buf, err2 := os.ReadFile(*flagReplay)
+		if err2 != nil {
+			harnessErr("replay: %v", err2)
+		}
+		var rp struct {
+			Replay map[string]any `json:"replay"`
+		}
+		if err2 = json.Unmarshal(buf, &rp); err2 != nil {
+			harnessErr("replay: %v", err2)
+		}
+		t, _ := rp.Replay["case_text"].(string)
+		if t == "" {
+			harnessErr("replay: %s names no case", *flagReplay)
+		}
+		*flagOne = t
 	}
 	if *flagOne != "" {
 		var cs []Case
